@@ -307,6 +307,24 @@ def r4_pickle_pairs(ctx):
             ctx.ok("C17.R4", loc(w), f"{wq.rsplit('.', 1)[-1]} / {rq.rsplit('.', 1)[-1]}: {lib}.dumps / {lib}.loads of the argument")
 
 
+def r4b_report_kind(ctx):
+    """C17.R4 (reader's kind check): report.deserialize hands back exactly what was pickled when it is a ControllerReport, and refuses
+    anything else."""
+    repo = ctx.repo
+    fi = repo.func("cascade.controller.report.deserialize")
+    rep = Obj("cascade.controller.report.ControllerReport", {"job_id": "j", "current_status": "1", "timestamp": 1, "results": []}, name="REPORT")
+    other = Obj("cascade.low.core.DatasetId", {"task": "t", "output": "0"}, name="OTHER")
+    for what, val, want in (("a pickled ControllerReport", rep, "return"), ("a pickled object of another class", other, "raise")):
+        ps = Interp(repo, call_models={"pickle.loads": lambda run, a, k, n, f, _v=val: _v}).explore(fi, args={"raw": b"x"})
+        ctx.evals(len(ps))
+        good = bool(ps) and all(p.exit[0] == want and (want == "raise" or getattr(p.exit[1], "name", None) == "REPORT") for p in ps)
+        if not good:
+            ctx.violation("C17.R4", fi.qual, loc(fi), f"deserialize on {what}", f"deserialize given {what} ends {[(p.exit[0], vkey(p.exit[1])[:50]) for p in ps]}; expected "
+                          f"{'the report itself' if want == 'return' else 'a TypeError'}")
+        else:
+            ctx.ok("C17.R4", loc(fi), f"deserialize | {what} -> {'returned as is' if want == 'return' else 'refused'}")
+
+
 def r5_gateway(ctx):
     """C17.R5: the gateway's JSON framing round-trips: what request_response puts on the wire is parsed by parse_request into the same
     request; what serialize_response puts on the wire is decoded by request_response into the same response; kinds and stems are
@@ -462,4 +480,4 @@ def r6_json_keys(ctx):
     ctx.floor("C17.R6.writers", nw, 1)
 
 
-RULES = [r1_layouts, r2_registry, r3_widths, r4_pickle_pairs, r5_gateway, r6_json_keys]
+RULES = [r1_layouts, r2_registry, r3_widths, r4_pickle_pairs, r4b_report_kind, r5_gateway, r6_json_keys]
